@@ -110,7 +110,7 @@ var e2Scenarios = map[string]e2Scenario{
 	"3w": {Name: "3w", Rows: []uint32{1, 2}, Writers: [][]TxnSpec{
 		{txn(at(1, add("m", 1), add("im", 5), cat("sc", "a"), put("p0", 1), rmg(1, "a")))},
 		{txn(at(1, add("m", 2), add("im", 7), cat("sc", "bb"), put("p1", 2), rmg(2, "b")))},
-		{txn(at(1, add("m", 4), add("im", 11), cat("sc", "c"), put("p2", 3), rmg(3, "")), at(2, add("f", 4607182418800017408)))},
+		{txn(at(1, add("m", 4), add("im", 0), cat("sc", "c"), put("p2", 3), rmg(3, "")), at(2, add("f", 4607182418800017408), add("ni", 0)))},
 	}},
 	// a deleting + re-inserting writer beside an updating writer
 	"del": {Name: "del", Rows: []uint32{1, 2, 3}, YieldInsert: true, Writers: [][]TxnSpec{
